@@ -257,7 +257,13 @@ func (b AcraBlock) EncryptedDataEncryptionKeyLength() int {
 
 // Decrypt AcraBlock using all keys sequentially until successful decryption and context
 func (b AcraBlock) Decrypt(keys [][]byte, context []byte) ([]byte, error) {
+	if len(b) < AcraBlockMinSize {
+		return nil, ErrInvalidAcraBlock
+	}
 	keySize := b.EncryptedDataEncryptionKeyLength()
+	if len(b) < AcraBlockMinSize+keySize {
+		return nil, ErrInvalidAcraBlock
+	}
 	encryptedKey := b[EncryptedDataEncryptionKeyPosition : EncryptedDataEncryptionKeyPosition+keySize]
 	encryptedData := b[AcraBlockMinSize+keySize:]
 	keyEncryptionKeyBackend := b.KeyEncryptionBackend()
@@ -307,7 +313,9 @@ func ExtractAcraBlockFromData(data []byte) (int, AcraBlock, error) {
 		validMask <<= 1
 	}
 	restLength := binary.LittleEndian.Uint64(data[RestAcraBlockLengthPosition : RestAcraBlockLengthPosition+RestAcraBlockLengthSize])
-	if len(data) >= int(restLength+TagBeginSize) {
+	// compare without additions on the untrusted value to avoid integer overflow; the declared length should cover
+	// at least the fixed-size header
+	if restLength <= uint64(len(data)-TagBeginSize) && restLength >= uint64(AcraBlockMinSize-TagBeginSize) {
 		validMask <<= 1
 	}
 	_, ok := keyEncryptionBackendTypeMap[KeyEncryptionBackendType(data[KeyEncryptionKeyTypePosition])]
@@ -322,7 +330,12 @@ func ExtractAcraBlockFromData(data []byte) (int, AcraBlock, error) {
 		return 0, nil, ErrInvalidAcraBlock
 	}
 	length := TagBeginSize + restLength
-	return int(length), AcraBlock(data[:length]), nil
+	block := AcraBlock(data[:length])
+	// encrypted data encryption key should fit into the block
+	if len(block) < AcraBlockMinSize+block.EncryptedDataEncryptionKeyLength() {
+		return 0, nil, ErrInvalidAcraBlock
+	}
+	return int(length), block, nil
 
 }
 
